@@ -8,7 +8,7 @@ wt="$1"; id="$2"; pkg="$3"; re="$4"; pkgs="$5"
 export GOFLAGS=-mod=mod GOPROXY=off
 src="$wt/_seeded/$id"
 [ -f "$src/patch.diff" ] || { echo "no $src/patch.diff"; exit 2; }
-dst="/verif/seeded/$id"; mkdir -p "$dst"; cp -r "$src"/. "$dst"/
+dst="/verif/seeded/$id"; [ -e "$dst" ] && { echo "$dst exists"; exit 2; }; mkdir -p "$dst"; cp -r "$src"/. "$dst"/
 cd "$wt" && git checkout -q -- . && git apply --check "$src/patch.diff" || { echo "patch does not apply"; exit 2; }
 git apply "$src/patch.diff"
 ex=$(go test -vet=off -count=1 -skip 'TestSeed' $pkgs 2>&1 | grep -v "no test files" | grep -cv "^ok"); 
